@@ -1,6 +1,6 @@
 (* C06 - Schema validation always terminates with a verdict and never panics. *)
 From Coq Require Import List ZArith Bool.
-From Verif Require Import Base.Sx Base.GoVal Schema.Ast Schema.Build Schema.Pipeline Schema.PipelineTotal Schema.PipelineTerm Schema.Agreement Schema.AgreementDec.
+From Verif Require Import Base.Sx Base.GoVal Schema.Ast Schema.Build Schema.Pipeline Schema.PipelineTotal Schema.PipelineTerm Schema.PipelineTermRec Schema.PipelineTermDec Schema.Agreement Schema.AgreementDec.
 Import ListNotations.
 Open Scope Z_scope.
 
@@ -31,8 +31,7 @@ Print Assumptions C06_full_refuted_unguarded_cycle.
 
 (* Positive half: on a schema without references a verdict is returned - no panic and no exhaustion - for every value,
    option set, oracle and numeric implementation, as soon as the fuel exceeds the nesting depth ([bounded n s]: no
-   reference anywhere and nesting depth at most n).  With references the statement needs a guardedness condition that
-   is not proved yet: the class between this theorem and the refutation above is covered by the tie only. *)
+   reference anywhere and nesting depth at most n).  With references, see the next theorem. *)
 Theorem C06_schemas_without_references_terminate_partial : forall OR N opt defs n fuel s,
   bounded n s -> (n < fuel)%nat -> forall p q d, exists r, sv_validate OR N opt defs fuel s p q d = Ok r.
 Proof. exact ref_free_schemas_terminate. Qed.
@@ -48,3 +47,42 @@ Proof.
                                                        o_fmt_known := fun _ => false; o_fmt_check := fun _ _ => true |}).
   apply clean_b_sound. vm_compute. reflexivity.
 Qed.
+
+(* Recursive definitions.  Let W be a set of schemas closed under "sub-schema of" and "target of the reference of", and
+   rank a measure on W, bounded by R, that strictly decreases along the edges that apply a schema to the SAME value:
+   $ref -> target, allOf / anyOf / oneOf / not members, schema dependencies ([guarded]: in particular every reference
+   resolves).  Cycles through items, properties, patternProperties, additionalItems / additionalProperties are allowed:
+   they descend into the value.  Then a verdict is returned - no panic, no exhaustion - for every value, option set,
+   oracle and numeric implementation, once the fuel exceeds depth(value) * (R + 1) + rank(schema).  The refuted cycle
+   above is exactly a schema without such a rank; between the two lies nothing: C06 is decided on the model up to the
+   existence of the rank, which [guarded_b] computes. *)
+Theorem C06_guarded_recursive_schemas_terminate : forall defs W rank R, guarded defs W rank R ->
+  forall OR N opt fuel s d, W s -> (goval_depth d * S R + rank s < fuel)%nat ->
+  forall p q, exists r, sv_validate OR N opt defs fuel s p q d = Ok r.
+Proof. intros defs W rank R G OR N opt. exact (guarded_schemas_terminate defs W rank R G OR N opt). Qed.
+Print Assumptions C06_guarded_recursive_schemas_terminate.
+
+(* the hypothesis is decidable: rank = height of the unfolding along value-preserving edges, cut at K; every schema
+   below the root and below every definition is inspected (the walk fails when its fuel n does not reach the leaves) *)
+Theorem C06_decided_schemas_terminate : forall defs OR N opt K R n root fuel d,
+  guarded_b defs K R n root = true -> (goval_depth d * S R + urank defs K root < fuel)%nat ->
+  forall p q, exists r, sv_validate OR N opt defs fuel root p q d = Ok r.
+Proof. intros defs OR N opt K R n root fuel d. exact (decided_schemas_terminate defs OR N opt K R n root fuel d). Qed.
+Print Assumptions C06_decided_schemas_terminate.
+
+(* non-vacuity: a linked list whose nodes extend a base definition
+     definitions: base = {"type":"object"}, node = {"allOf":[{"$ref":base}], "properties":{"next":{"$ref":node}}, "additionalProperties":{"items":{"$ref":node}}}
+     root = {"$ref": node}
+   ranks: base 0, $ref base 1, node 2, $ref node 3 *)
+Definition c06_base : schema := set_types [k_object] empty_schema.
+Definition c06_node : schema :=
+  set_all_of [set_ref (Some 51) empty_schema]
+    (set_props [(40, set_ref (Some 52) empty_schema)]
+       (set_add_props (Some (true, Some (set_items_one (Some (set_ref (Some 52) empty_schema)) empty_schema))) empty_schema)).
+Definition c06_defs : env := [(51, c06_base); (52, c06_node)].
+Definition c06_root : schema := set_ref (Some 52) empty_schema.
+Example C06_recursive_list_is_guarded : guarded_b c06_defs 8 3 6 c06_root = true /\ urank c06_defs 8 c06_root = 3%nat.
+Proof. vm_compute. split; reflexivity. Qed.
+(* and the refuted cycle is rejected by the decision procedure, at every cut *)
+Example C06_cycle_is_not_guarded : guarded_b cyc_defs 8 8 6 cyc_a = false.
+Proof. vm_compute. reflexivity. Qed.
